@@ -835,7 +835,7 @@ fn v5_ping_protocol() {
 // ------------------------------------------------------------------------------------------
 // CONNACK: receive-maximum negotiated down (C07, v5 only)
 // ------------------------------------------------------------------------------------------
-// @steps name=v5_connack props=C07 fn=v5::MqttState::handle_incoming_connack call=connack_step covered_by=cstate5
+// @steps name=v5_connack props=C07,C02 fn=v5::MqttState::handle_incoming_connack call=connack_step covered_by=cstate5
 fn connack_step(n: usize) {
     let mut st = any_state(n, 0);
     let g = ghost(&st);
